@@ -13,7 +13,7 @@ CONSTANTS
   MaxCostSet = {2}
   SetMaxSet = {1}
   AdvSet = {}
-  Budget = 2
+  Budget = 3
   Ops = {"insert", "wait", "clear", "close", "get", "remove"}
   TickOn = FALSE
   MaxNow = 0
